@@ -420,6 +420,11 @@ func (e *Engine) Enumerate(fn *ssa.Function) []*Obligation {
 	}
 	for _, b := range fn.Blocks {
 		for _, in := range b.Instrs {
+			if e.Extra != nil {
+				for _, xo := range e.Extra(fn, in, c.lin, c.seqLen) {
+					add(in, xo.Kind, xo.Expr, xo.Goals...)
+				}
+			}
 			switch x := in.(type) {
 			case *ssa.IndexAddr:
 				e.indexOb(c, in, x.X, x.Index, add)
@@ -497,11 +502,6 @@ func (e *Engine) Enumerate(fn *ssa.Function) []*Obligation {
 				}
 				add(in, "terminator", "panic", Ineq{Const(-1), "explicit panic"})
 			case ssa.CallInstruction:
-				if e.Extra != nil {
-					for _, xo := range e.Extra(fn, in, c.lin, c.seqLen) {
-						add(in, xo.Kind, xo.Expr, xo.Goals...)
-					}
-				}
 				if name, ok := terminatorCall(x); ok {
 					add(in, "terminator", name, Ineq{Const(-1), "process terminator"})
 				}
